@@ -221,6 +221,40 @@ func (e *Engine) intercept(fn *ssa.Function, args []Value) (Value, bool) {
 			res = tb.Ite(ge, e.intConst(64, int64(k+1)), res)
 		}
 		return res, true
+	case "math/bits.Mul64", "math/bits.Add64", "math/bits.Sub64", "math/bits.Div64":
+		// exact, through mathematical integers (in BV mode via bv2nat / int2bv)
+		e.stub(key)
+		two64 := tb.IntBig(pow2(64))
+		var m []*Term
+		for _, a := range args {
+			m = append(m, e.toMathInt(a.(*Term), false))
+		}
+		back := func(t *Term) *Term {
+			if e.intMode {
+				return t
+			}
+			return e.asBV(t, 64)
+		}
+		switch key {
+		case "math/bits.Mul64":
+			p := tb.IBin("*", m[0], m[1])
+			return TupleV{back(tb.IBin("div", p, two64)), back(tb.IBin("mod", p, two64))}, true
+		case "math/bits.Add64":
+			sum := tb.IBin("+", tb.IBin("+", m[0], m[1]), m[2])
+			return TupleV{back(tb.IBin("mod", sum, two64)), back(tb.IBin("div", sum, two64))}, true
+		case "math/bits.Sub64":
+			d := tb.IBin("-", tb.IBin("-", m[0], m[1]), m[2])
+			return TupleV{back(tb.IBin("mod", d, two64)), back(tb.Ite(tb.ICmp("<", d, tb.Int(0)), tb.Int(1), tb.Int(0)))}, true
+		default: // Div64(hi, lo, y): panics for y == 0 and for y <= hi (quotient overflow)
+			if e.decide(tb.Eq(m[2], tb.Int(0)), "div64-zero") {
+				e.progPanic("integer divide by zero (bits.Div64)")
+			}
+			if e.decide(tb.ICmp("<=", m[2], m[0]), "div64-overflow") {
+				e.progPanic("integer overflow (bits.Div64: y <= hi)")
+			}
+			n := tb.IBin("+", tb.IBin("*", m[0], two64), m[1])
+			return TupleV{back(tb.IBin("div", n, m[2])), back(tb.IBin("mod", n, m[2]))}, true
+		}
 	case "math/bits.LeadingZeros64":
 		e.stub(key)
 		x := args[0].(*Term)
@@ -229,6 +263,21 @@ func (e *Engine) intercept(fn *ssa.Function, args []Value) (Value, bool) {
 		}
 		e.unmodelled("bits.LeadingZeros64 on a symbolic value")
 	// ---- sort
+	case "sort.Search":
+		// the documented algorithm, with the real predicate called symbolically (n must be concrete)
+		e.stub(key)
+		n := e.concreteInt(args[0].(*Term), "sort.Search n")
+		i, j := 0, n
+		for i < j {
+			h := int(uint(i+j) >> 1)
+			r := e.callValue(args[1], e.intConst(64, int64(h))).(*Term)
+			if !e.decide(r, "search-pred") {
+				i = h + 1
+			} else {
+				j = h
+			}
+		}
+		return e.intConst(64, int64(i)), true
 	case "sort.SliceStable", "sort.Slice":
 		e.stub(key)
 		s := unwrapAny(args[0]).(SliceV)
